@@ -90,6 +90,9 @@ theorem text_SessionData_SetIncomingPath_ok : Oidc.Shapes.Text_SessionData_SetIn
 /-- the constructor fixes the grace period, the caches and the session manager each instance runs with -/
 theorem text_New_ok : Oidc.Shapes.Text_New := by unfold Oidc.Shapes.Text_New; rfl
 
+/-! further functions these theorems rest on (every forwarded request passes through them) -/
+theorem shape_isUserAuthenticated_ok : Oidc.Shapes.Shape_isUserAuthenticated := by unfold Oidc.Shapes.Shape_isUserAuthenticated; rfl
+
 /-! ## The same statements about the code itself: the functions below are `Oidc.Generated.Code`, which `tools/go2lean` translates
     from /repo's source, statement by statement, on every run (meaning of the Go constructs: `Oidc/GoLib.lean`) -/
 open Oidc.Generated Oidc.CodeRefine in
